@@ -194,6 +194,18 @@ class Shapes(object):
             return
         base = dict((i, shs[0]) for i, shs in per)
         seen = set()
+        # every combination of omitted (None) optional children
+        import itertools
+        nullable = [i for i, shs in per if ('none',) in shs]
+        for r in range(2, len(nullable) + 1):
+            for sub in itertools.combinations(nullable, r):
+                c = dict(base)
+                for i in sub:
+                    c[i] = ('none',)
+                key = tuple(sorted(c.items()))
+                if key not in seen:
+                    seen.add(key)
+                    yield c
         for i, shs in per:
             for sh in shs:
                 c = dict(base)
